@@ -51,6 +51,7 @@ type c05World struct {
 	cliOwner     map[string]string          // cli token -> user
 	bootstrapOf  map[string]string          // otp value -> user (current, unused)
 	lastAssert   map[string]map[string]string
+	lastAssertCh map[string]string // the challenge value each stored assertion was made over
 	trace        []string
 	primaryLabel string
 }
@@ -349,28 +350,32 @@ func (w *c05World) u2fFinish(s *c05Session, users map[string]*c05User, signer, o
 	if ch != nil {
 		chv, app, chUsed, chAge = ch.Value, ch.AppID, ch.Used, time.Since(ch.IssuedAt)
 	}
-	prev := w.lastAssert[signer]
+	prev, prevCh := w.lastAssert[signer], w.lastAssertCh[signer]
 	w.mu.Unlock()
 	if ch == nil || users[signer] == nil || users[signer].Token == nil || ch.Kind != "u2f" {
 		return
 	}
 	var resp map[string]string
+	assertCh := chv // the challenge value the presented response was made over
 	if replay && prev != nil {
-		resp = prev
+		resp, assertCh = prev, prevCh
 	} else {
 		resp = users[signer].Token.SignResponse(app, chv)
 		replay = false
 	}
 	r := verifU2FFinish(w.env, s.Auth, resp)
 	proven := 0
-	// legitimate: own token, over the challenge currently pending for this very user, unused, fresh, not a replayed response
+	// legitimate: own token, over the challenge currently pending for this very user, not yet honoured, fresh.  A
+	// response shown before counts too as long as it was never honoured (e.g. it was first sent with another session
+	// and refused there): the one-time value is the challenge, spent when a response over it is honoured.
 	w.mu.Lock()
 	cur := w.challenge[sub]
-	if ok && signer == sub && over == sub && cur != nil && cur.Value == chv && !chUsed && !replay && chAge < 30*time.Second {
+	if ok && signer == sub && cur != nil && cur.Kind == "u2f" && cur.Value == assertCh && !cur.Used && time.Since(cur.IssuedAt) < 30*time.Second {
 		proven = verifBit["U2F"]
 	}
-	w.lastAssert[signer] = resp
+	w.lastAssert[signer], w.lastAssertCh[signer] = resp, assertCh
 	w.mu.Unlock()
+	_ = chUsed
 	em := w.adopt(s, r)
 	honoured := false
 	if em != "" {
@@ -383,7 +388,7 @@ func (w *c05World) u2fFinish(s *c05Session, users map[string]*c05User, signer, o
 	w.check("u2f-finish:"+label, presented, em, proven, "")
 	if honoured {
 		w.mu.Lock()
-		if c := w.challenge[sub]; c != nil && c.Value == chv {
+		if c := w.challenge[sub]; c != nil && c.Value == assertCh {
 			c.Used = true
 		}
 		w.mu.Unlock()
@@ -604,7 +609,7 @@ func c05NewWorld(t *testing.T, rep *verifReport) *c05World {
 		t.Fatal(err)
 	}
 	return &c05World{primaryLabel: pl, env: env, rep: rep, vip: vip, trust: trust, acceptedTOTP: map[string]map[string]bool{}, pushFor: map[string]string{},
-		challenge: map[string]*c05Challenge{}, cliOwner: map[string]string{}, bootstrapOf: map[string]string{}, lastAssert: map[string]map[string]string{}}
+		challenge: map[string]*c05Challenge{}, cliOwner: map[string]string{}, bootstrapOf: map[string]string{}, lastAssert: map[string]map[string]string{}, lastAssertCh: map[string]string{}}
 }
 
 var c05VIPSeq int
@@ -754,6 +759,41 @@ func TestVerifC05(t *testing.T) {
 		w.u2fFinish(sa, users, a.Name, a.Name, false, "expired-challenge")
 		rep.Count("expired_challenge_checked", 1)
 	})
+	// S4b: an expired challenge of one hardware-token ceremony must stay dead when the same user starts the other kind of
+	// ceremony afterwards (both ceremonies keep their pending challenge in one per-user record); same real wait
+	scenario("expired-challenge-other-ceremony", func() {
+		x, y := w.newUser("s4x", true), w.newUser("s4y", true)
+		sx, sx2, sy, sy2 := &c05Session{}, &c05Session{}, &c05Session{}, &c05Session{}
+		for s, u := range map[*c05Session]*c05User{sx: x, sx2: x, sy: y, sy2: y} {
+			w.login(s, u, true)
+		}
+		w.waBegin(sx)
+		w.u2fBegin(sy)
+		w.mu.Lock()
+		oldWA, oldU2F := w.challenge[x.Name], w.challenge[y.Name]
+		w.mu.Unlock()
+		if oldWA == nil || oldWA.Kind != "webauthn" || oldU2F == nil || oldU2F.Kind != "u2f" {
+			rep.Inconc("expired-challenge-other-ceremony: could not obtain the two challenges")
+			return
+		}
+		time.Sleep(31500 * time.Millisecond)
+		w.u2fBegin(sx2) // user x starts a U2F ceremony from another session
+		w.waBegin(sy2)  // user y starts a WebAuthn ceremony from another session
+		// x answers the long expired WebAuthn challenge
+		presented := sx.Auth
+		body := x.Token.WebAuthnAssertion(verifIssuer, verifIssuer, oldWA.Value)
+		r := w.do(verifReq{Method: "POST", Path: "/webauthn/AuthFinish/", RawBody: body, RawCT: "application/json", Cookies: w.cookies(sx, nil)})
+		w.log("waFinish(session=%s over its own WebAuthn challenge issued 31 s ago, after a U2F sign request)=%d", x.Name, r.Code)
+		w.rep.Eval(fmt.Sprintf("wafinish|expired-after-other-ceremony|%d", r.Code))
+		w.check("webauthn-finish:expired-challenge-after-u2f-sign-request", presented, w.adopt(sx, r), 0, "")
+		// y answers the long expired U2F challenge
+		presented = sy.Auth
+		r2 := verifU2FFinish(w.env, sy.Auth, y.Token.SignResponse(oldU2F.AppID, oldU2F.Value))
+		w.log("u2fFinish(session=%s over its own U2F challenge issued 31 s ago, after a WebAuthn begin)=%d", y.Name, r2.Code)
+		w.rep.Eval(fmt.Sprintf("u2ffinish|expired-after-other-ceremony|%d", r2.Code))
+		w.check("u2f-finish:expired-challenge-after-webauthn-begin", presented, w.adopt(sy, r2), 0, "")
+		rep.Count("expired_challenge_checked", 2)
+	})
 	// S5: bootstrap OTP: other user's, own, reused, expired
 	scenario("bootstrap", func() {
 		c, d, e := w.newUser("s5c", false), w.newUser("s5d", false), w.newUser("s5e", false)
@@ -887,6 +927,45 @@ func TestVerifC05(t *testing.T) {
 		rep.Count("storage_fault_scenarios", 1)
 		rep.Count("scenarios_completed", 1)
 	}()
+	// S9: the primary answers reads too slowly (they are served from the offline cache, which still holds the OTP) while
+	// writes go through: a bootstrap OTP presented from several sessions must be honoured at most once
+	// (runs alone: the delay affects the whole store)
+	func() {
+		if w.primaryLabel == "" {
+			return
+		}
+		c := w.newUser("s9c", false)
+		w.issueBootstrap("root1", c, "")
+		var ss []*c05Session
+		for i := 0; i < 3; i++ {
+			s := &c05Session{}
+			w.login(s, c, true)
+			ss = append(ss, s)
+		}
+		if err := w.env.SyncCache(); err != nil {
+			rep.Inconc("slow-reads scenario: cache synchronisation failed: %v", err)
+			return
+		}
+		w.env.SetRemoteDBTimeout(40 * time.Millisecond)
+		verifSQL.SetHook(w.primaryLabel, func(op verifSQLOp) error {
+			if op.Kind == "query" {
+				time.Sleep(400 * time.Millisecond) // ten times the read deadline: the cache answers
+			}
+			return nil
+		})
+		n := 0
+		for i, s := range ss {
+			if w.bootstrap(s, c.Bootstrap, fmt.Sprintf("slow-primary-reads-%d", i+1)) {
+				n++
+			}
+		}
+		verifSQL.SetHook(w.primaryLabel, nil)
+		w.env.SetRemoteDBTimeout(20 * time.Second)
+		time.Sleep(500 * time.Millisecond) // let the delayed reads drain
+		rep.Eval(fmt.Sprintf("slow-reads|bootstrap|honoured=%d", n))
+		rep.Count("slow_read_scenarios", 1)
+		rep.Count("scenarios_completed", 1)
+	}()
 	for _, f := range []string{"password", "TOTP", "SymantecVIP", "U2F", "BootstrapOTP", "WebauthForCLI"} {
 		rep.Floor("legit_gain_"+f, 1)
 	}
@@ -894,7 +973,8 @@ func TestVerifC05(t *testing.T) {
 	rep.Floor("webauthn_honoured", 1)
 	rep.Floor("expired_challenge_checked", 1)
 	rep.Floor("totp_replay_next_step_checked", 1)
-	rep.Floor("scenarios_completed", 8+nPairs)
+	rep.Floor("scenarios_completed", 10+nPairs)
+	rep.Floor("slow_read_scenarios", 1)
 	rep.Floor("two_cookie_requests", 6)
 	rep.Floor("storage_fault_scenarios", 1)
 	rep.Assume("Okta OTP/push level upgrades are exercised in C17's Okta deployment for redirects only; the push service, directory-less password backend and hardware tokens are local fakes / soft tokens")
